@@ -191,3 +191,18 @@ Definition md_run (h : list mevent) : mdata := fold_left md_process h md0.
 
 Definition market_events (h : list ievent) : list mevent :=
   flat_map (fun e => match e with IMarket m => [m] | IFill _ => [] end)%list h.
+
+(* ---- local receive time ------------------------------------------------------------------------ *)
+
+(** An engine event as delivered: a market item additionally carries MarketEvent.time_received,
+    the local time at which it was observed. Neither DefaultInstrumentMarketData::process nor the
+    re-marking of the position reads it (staleness guards and stored stamps use time_exchange
+    only), so the model erases it: [unstamp]. *)
+Inductive sevent := SMarket (i : N) (t_received : Z) (e : mevent) | SFill (f : fill).
+Definition unstamp (e : sevent) : eevent :=
+  match e with SMarket i _ m => EMarket i m | SFill f => EFill f end.
+Definition srun (h : list sevent) : estate := erun (map unstamp h).
+
+(** two deliveries that differ only in their receive times *)
+Definition same_modulo_received (h h' : list sevent) : Prop :=
+  Forall2 (fun a b => unstamp a = unstamp b) h h'.
